@@ -66,15 +66,25 @@ func VerifC13API() {
 
 	// an update that names a key attribute cannot change the stored item's key
 	x := vKeyStr("x", cap)
-	exprs := []string{"SET p = :x", "SET s = :x", "SET v = :x, s = :x", "REMOVE s", "REMOVE p"}
+	exprs := []string{"SET p = :x", "SET s = :x", "SET v = :x, s = :x", "REMOVE s", "REMOVE p", "SET s = :n", "SET p = :n", "SET v = :x, p = :n"}
 	ue := exprs[nd.Choice("keyupdate", len(exprs))]
 	in := &dynamodb.UpdateItemInput{TableName: aws.String(vTbl), Key: k1.item(true), UpdateExpression: aws.String(ue)}
+	sameType := true // the new key value has the key attribute's declared type
 	if ue[0] == 'S' {
-		in.ExpressionAttributeValues = vItem{":x": vS(x)}
+		in.ExpressionAttributeValues = vItem{}
+		for i := 0; i+1 < len(ue); i++ {
+			if ue[i] == ':' && ue[i+1] == 'x' {
+				in.ExpressionAttributeValues[":x"] = vS(x)
+			}
+			if ue[i] == ':' && ue[i+1] == 'n' {
+				in.ExpressionAttributeValues[":n"] = vN("7")
+				sameType = false
+			}
+		}
 	}
 	_, uerr := c.UpdateItem(vCtx, in)
 	after, gerr := vGet(c, k1.item(true))
-	if nd.Known("C13-update-sets-key-attribute") && ue[0] == 'S' {
+	if nd.Known("C13-update-sets-key-attribute") && ue[0] == 'S' && sameType {
 		// known finding (core's TestUpdate pins it): an update that SETs a key attribute rewrites it in the
 		// stored item, which stays retrievable under the old key; REMOVE of a key attribute is still checked
 		nd.Reach("end")
